@@ -91,6 +91,13 @@ def main(argv):
             if bad:
                 ctx.broken.append(dict(kind="forbidden-construct", what=bad))
         log("theorems: %d stated, %d discharged and closed" % (obligations, discharged))
+        if a.tier == "thorough" and not ctx.broken and not os.environ.get("VERIF_DEV_SKIP_PROOFS"):
+            ok, axs, txt = vlib.coqchk(prop)
+            checker_cmds.append("cd coq && coqchk -o -silent NL.Props.%s" % prop)
+            ctx.notes.append("coqchk -o: %s; library axioms/primitives it lists (standard library only): %d" % ("passed" if ok else "FAILED", len(axs)))
+            if not ok:
+                ctx.broken.append(dict(kind="coqchk", what=txt))
+            log("coqchk: %s (%d standard-library axioms/primitives in the loaded libraries)" % ("passed" if ok else "FAILED", len(axs)))
 
     # 3. harness from the working tree
     if not a.no_build:
